@@ -115,6 +115,11 @@ def sweep_cases(ctx, lays):
 
 def disc_names(l):
     out = []
+    # in the raw-bitfield view a group count that lives in a bit flag is supplied through the raw bitfield that holds it
+    if not l["pbf"]:
+        fixn = {f["n"] for f in l["fixes"]}
+        offs = {e["off"] for e in l["lay"] if e["k"] == "x" and e["n"] in fixn}
+        out += [e["n"] for e in l["lay"] if e["k"] == "f" and e["x"] == 1 and e["t"][:1] == "X" and e["off"] in offs]
     for bf in l["bfix"]:
         for e in l["lay"]:
             if e["k"] == "f" and e["off"] == bf["o"] and e["x"] == 1:
